@@ -265,6 +265,16 @@ class Frame:
         else:
             self.res = res
 
+    # proof-side helpers; at call sites and in lemmas they have nothing to offer
+    def local(self, name, default=None):
+        return default
+
+    def loop_k(self, ordinal):
+        return None
+
+    def locals(self, name):
+        return []
+
     def forall(self, bounds, body):
         return forall(self.sem, bounds, body)
 
@@ -287,7 +297,7 @@ class LoopCtx:
 # obligations
 # --------------------------------------------------------------------------------------
 class Obligation:
-    __slots__ = ("func", "kind", "clause", "hyps", "goal", "path", "loc", "result", "seconds", "model", "reason", "backend", "shape")
+    __slots__ = ("func", "kind", "clause", "hyps", "goal", "path", "loc", "result", "seconds", "model", "reason", "backend", "shape", "units")
 
     def __init__(self, func, kind, clause, hyps, goal, path, loc):
         self.func, self.kind, self.clause = func, kind, clause
@@ -298,6 +308,7 @@ class Obligation:
         self.reason = ""
         self.backend = ""
         self.shape = None
+        self.units = 0
 
     @property
     def name(self):
@@ -794,7 +805,7 @@ class Engine:
                 from .solve import discharge
 
                 ob = Obligation(self.fname, "hint", name, p.pc, f, p.pid, self.cur_loc)
-                discharge(ob, 5000, want_model=False)
+                discharge(ob, None, want_model=False, rlimit=25_000_000)
                 self.hints.append(ob)
                 if ob.result == "proved":
                     extra.append(f)
@@ -1058,6 +1069,8 @@ class Engine:
         for f in c.ghost_defs(F):
             p.pc.append(f)
         for en, f in c.call_ensures(F2, sem.mode):
+            if en.startswith("hint:"):
+                continue  # proof hints belong to the callee's own proof, they are not contract clauses
             if self._clause_ok(c, en):
                 p.pc.append(f)
         rs = getattr(c, "raises", None)
